@@ -1,8 +1,14 @@
 (* Correspondence for C11: a case is a history's sequence of snapshots; each
-   snapshot holds the raw table dump and a batch of queries with what the
-   implementation was observed to do (the ORDER BY terms / DISTINCT flag of the
-   statement, the selectBy clause, the result).  `agree` evaluates the model on
-   the same query over the dumped rows and compares. *)
+   snapshot holds the raw table dump AS SEEN THROUGH EACH CONNECTION (0: the
+   class's own connection; 1: a plain connection to a second, file-backed
+   database; 2: a Transaction on that database with uncommitted writes, given
+   as the list of writes made inside it) and a batch of queries -- each with
+   the way it was bound to a connection (connection= keyword, .connection()
+   call inside the chain, or not at all) -- with what the implementation was
+   observed to do (the ORDER BY terms / DISTINCT flag of the statement, the
+   selectBy clause, the result).  `agree` evaluates the model on the same
+   query over the rows the BOUND connection sees and compares; it also checks
+   that the transaction's view is the committed table with its writes applied. *)
 From Coq Require Import List ZArith NArith Bool.
 From Lib Require Import PyLite QueryPy CorrLib.
 From Gen Require Import Query.
@@ -17,9 +23,9 @@ Inductive fin :=
 | FGetOne (nodefault : bool).
 
 Inductive query :=
-| QSel (dflt : oby) (s : src) (calls : list mcall) (win : pv * pv) (f : fin)
-| QAltId (v : kval)
-| QIndex (dflt : oby) (kws : list (kw * kval)).
+| QSel (dflt : oby) (s : src) (kwc : option conn) (calls : list bcall) (win : pv * pv) (f : fin)
+| QAltId (v : kval) (kwc : option conn)
+| QIndex (dflt : oby) (kws : list (kw * kval)) (kwc : option conn).
 
 Inductive res := RIds (l : list Z) | ROut (o : out).
 
@@ -29,8 +35,12 @@ Record obs := mkobs {
   o_res : res
 }.
 
-Record snap := mksnap { sn_rows : list row; sn_qs : list (query * obs) }.
+(* sn_views: the table as seen through connection 0, 1, 2 (as far as the mode has them);
+   sn_writes: the writes made inside the open transaction (connection 2), in order *)
+Record snap := mksnap { sn_views : list (list row); sn_writes : list wr; sn_qs : list (query * obs) }.
 Definition case := list snap.
+Definition store_of (views : list (list row)) : store := fun c => nth (N.to_nat c) views [].
+Definition cls_conn : conn := 0%N.
 
 (* ---------------------------------------------------------------- equalities *)
 Definition ratom_eqb (a b : ratom) : bool :=
@@ -80,12 +90,14 @@ Definition trivial_win (w : pv * pv) : bool :=
   match w with (VNone, VNone) => true | _ => false end.
 
 (* ---------------------------------------------------------------- agreement *)
-Definition agree_sel (rows : list row) (dflt : oby) (s : src) (calls : list mcall) (win : pv * pv)
+Definition agree_sel (st : store) (dflt : oby) (s : src) (kwc : option conn) (calls : list bcall) (win : pv * pv)
            (f : fin) (o : obs) : bool :=
-  match sr_make s with
+  match b_make s kwc with
   | None => match o_res o with ROut OTypeError => true | _ => false end
-  | Some s0 =>
-      let s1 := sr_calls s0 calls in
+  | Some b0 =>
+      let b1 := b_calls b0 calls in
+      let s1 := b_sr b1 in
+      let rows := b_rows st cls_conn b1 in
       let q := sr_sql dflt s1 in
       (* layer 1: the statement *)
       option_eqb (fun a b => Bool.eqb (fst a) (fst b) && option_eqb (list_eqb rt_eqb) (snd a) (snd b))
@@ -101,20 +113,26 @@ Definition agree_sel (rows : list row) (dflt : oby) (s : src) (calls : list mcal
              trivial_win win &&
              match rows_of rows ids with Some l => select_check q rows l | None => false end
          | FList, ROut ODbError => trivial_win win && match resolve_order (q_order q) with OReject => true | _ => false end
-         | FCount, ROut x => out_eqb (run_count s1 win rows) x
-         | FAgg m a, ROut x => out_eqb (run_agg s1 win m a rows) x
-         | FGetOne nd, ROut x => trivial_win win && out_eqb (run_getone dflt s1 nd rows) x
+         | FCount, ROut x => out_eqb (b_count st cls_conn b1 win) x
+         | FAgg m a, ROut x => out_eqb (b_agg st cls_conn b1 win m a) x
+         | FGetOne nd, ROut x => trivial_win win && out_eqb (b_getone st cls_conn dflt b1 nd) x
          | _, _ => false
          end)
   end.
 
-Definition agree_q (rows : list row) (qo : query * obs) : bool :=
+Definition agree_q (st : store) (qo : query * obs) : bool :=
   let (q, o) := qo in
   match q with
-  | QSel dflt s calls win f => agree_sel rows dflt s calls win f o
-  | QAltId v => match o_res o with ROut x => altid_check v rows x | _ => false end
-  | QIndex dflt kws => match o_res o with ROut x => out_eqb (run_index dflt kws rows) x | _ => false end
+  | QSel dflt s kwc calls win f => agree_sel st dflt s kwc calls win f o
+  | QAltId v kwc => match o_res o with ROut x => altid_check v (st (conn_or cls_conn kwc)) x | _ => false end
+  | QIndex dflt kws kwc => match o_res o with ROut x => out_eqb (b_index st cls_conn kwc dflt kws) x | _ => false end
   end.
 
-Definition agree_snap (s : snap) : bool := forallb (agree_q (sn_rows s)) (sn_qs s).
+(* the transaction (connection 2) sees the committed table (connection 1) with its own writes applied *)
+Definition txn_ok (s : snap) : bool :=
+  match sn_views s with
+  | [_; committed; view] => same_table (txn_view committed (sn_writes s)) view
+  | _ => match sn_writes s with [] => true | _ => false end
+  end.
+Definition agree_snap (s : snap) : bool := txn_ok s && forallb (agree_q (store_of (sn_views s))) (sn_qs s).
 Definition agree (c : case) : bool := forallb agree_snap c.
